@@ -351,6 +351,54 @@ def run(chk):
                     chk.fail("R15.8", key, "panic: %s" % e, where="src/descriptor/tr/spend_info.rs")
         finally:
             B5.TRAIT_TABLE[("std::convert::TryFrom", "try_from")] = orig5
+    # R15.9 the tree's own leaf iterator (TapTree::leaves, Tr::leaves, Descriptor::tap_tree_iter), from both ends
+    chk.rule("R15.9", "TapTree::leaves yields every leaf once with its own depth: next from the left in tree order, next_back from "
+                      "the right, in any interleaving of the two, None after the last one; len is the number of leaves left")
+    try:
+        lv = F.fn("leaves", file="tr/taptree.rs", container="TapTree")
+        imps9 = {(i["trait"], it["name"]): it["path"] for i in F.impls if (i.get("self_adt") or "").endswith("taptree::TapTreeIter")
+                 for it in i["items"]}
+        nx9, nb9 = imps9[("std::iter::Iterator", "next")], imps9[("std::iter::DoubleEndedIterator", "next_back")]
+        ln9 = imps9[("std::iter::ExactSizeIterator", "len")]
+    except KeyError as e:
+        chk.fail("R15.9", "anchor", "TapTree::leaves / TapTreeIter impls not found: %s" % e, kind="unanalysable")
+    else:
+        import itertools as it9
+        from ..builtins import deref
+        chk.saw(lv, nx9, nb9, ln9)
+        m9 = Machine(F, strict=True)
+        n9 = 0
+        for text in ["A", "{A,B}", "{A,{B,C}}", "{{A,B},C}", "{{A,B},{C,D}}", "{A,{B,{C,D}}}"]:
+            tree = mk_tree(text)
+            leaves9 = [(d, x.fields["leafname"]) for d, x in tree.fields["depths_leaves"].items]
+            for sched in it9.product("FB", repeat=len(leaves9) + 1):
+                key = "%s|%s" % (text, "".join(sched))
+                n9 += 1
+                try:
+                    itv = m9.call_path(lv, [tree])
+                    rest = list(leaves9)
+                    bad = []
+                    for step in sched:
+                        ln = m9.call_path(ln9, [itv])
+                        if ln != len(rest):
+                            bad.append("len %r with %d leaves left" % (ln, len(rest)))
+                        r = m9.call_path(nx9 if step == "F" else nb9, [itv])
+                        want = (rest.pop(0) if step == "F" else rest.pop()) if rest else None
+                        got = None
+                        if r.variant == "Some":
+                            x = deref(r.fields["0"])
+                            got = (x.fields["depth"], deref(x.fields["node"]).fields["leafname"])
+                        if got != want:
+                            bad.append("%s gives %r, expected %r" % ("next" if step == "F" else "next_back", got, want))
+                    if [(d, x.fields["leafname"]) for d, x in tree.fields["depths_leaves"].items] != leaves9:
+                        bad.append("the tree itself was changed by iterating")
+                    chk.obligation("R15.9", not bad, key, "; ".join(bad[:2]), where="src/descriptor/tr/taptree.rs")
+                except Unsupported as e:
+                    chk.fail("R15.9", "unanalysable:" + key, "unanalysable: %s" % e, where=e.where, kind="unanalysable")
+                    break
+                except Panic as e:
+                    chk.fail("R15.9", key, "panic: %s" % e, where="src/descriptor/tr/taptree.rs")
+        chk.floor("R15.9", "schedules", n9, 100)
     # R15.4 BitStack128
     chk.rule("R15.4", "BitStack128: pop returns pushed bits in reverse order, None when empty, for sequences up to 128 bits")
     bs = [a for a in F.adts if a.endswith("BitStack128")]
